@@ -7,11 +7,13 @@ GCD(a, b) == IF b = 0 THEN a ELSE GCD(b, a % b)
 RNorm(n, d) == LET s == IF d < 0 THEN -1 ELSE 1 g == GCD(Abs(n), Abs(d)) IN
                IF n = 0 THEN <<0, 1>> ELSE <<(s * n) \div g, (s * d) \div g>>
 R(n) == <<n, 1>>
-RAdd(x, y) == RNorm(x[1] * y[2] + y[1] * x[2], x[2] * y[2])
+\* common factors are cancelled BEFORE multiplying (TLC integers are 32-bit)
+RAdd(x, y) == LET g == GCD(x[2], y[2]) IN RNorm(x[1] * (y[2] \div g) + y[1] * (x[2] \div g), (x[2] \div g) * y[2])
 RNeg(x) == <<-x[1], x[2]>>
 RSub(x, y) == RAdd(x, RNeg(y))
-RMul(x, y) == RNorm(x[1] * y[1], x[2] * y[2])
-RDiv(x, y) == RNorm(x[1] * y[2], x[2] * y[1])
+RMul(x, y) == IF x[1] = 0 \/ y[1] = 0 THEN <<0, 1>> ELSE
+              LET g1 == GCD(Abs(x[1]), y[2]) g2 == GCD(Abs(y[1]), x[2]) IN RNorm((x[1] \div g1) * (y[1] \div g2), (x[2] \div g2) * (y[2] \div g1))
+RDiv(x, y) == RMul(x, IF y[1] < 0 THEN <<-y[2], -y[1]>> ELSE <<y[2], y[1]>>)
 RLeq(x, y) == x[1] * y[2] <= y[1] * x[2]
 RECURSIVE RSum(_)
 RSum(s) == IF s = <<>> THEN <<0, 1>> ELSE RAdd(Head(s), RSum(Tail(s)))
